@@ -347,6 +347,28 @@ func (x *inst) Apply(op space.Op) *space.Mismatch {
 		if f, msg := content(c, cm, sorted(cm)); f != "" {
 			return mm(ep+".Clone|clone-wrong-after-mutation|"+f, "clone of %v after toggling %d in the clone: %s", sorted(m), v, msg)
 		}
+		// two further clones of the same source that both grow past the source's capacity: each
+		// must end up with its own new member only (clones that share spare capacity of the
+		// source's array would overwrite each other)
+		if v == x.c.alpha[0] {
+			c1, c2 := s.clone(), s.clone()
+			m1, m2 := copyModel(m), copyModel(m)
+			x1 := uint(s.capv()) + 1
+			if r := toggle(c1, m1, x1); r != nil {
+				r.Sig = ep + ".Clone|" + r.Sig + "|on-clone"
+				return r
+			}
+			if r := toggle(c2, m2, x1+1); r != nil {
+				r.Sig = ep + ".Clone|" + r.Sig + "|on-clone"
+				return r
+			}
+			if f, msg := content(c1, m1, sorted(m1)); f != "" {
+				return mm(ep+".Clone|clone-changed-by-another-clone|"+f, "two clones of %v; Add(%d) to the first, Add(%d) to the second; the first now: %s", sorted(m), x1, x1+1, msg)
+			}
+			if f, msg := content(c2, m2, sorted(m2)); f != "" {
+				return mm(ep+".Clone|clone-changed-by-another-clone|"+f, "two clones of %v; Add(%d) to the first, Add(%d) to the second; the second now: %s", sorted(m), x1, x1+1, msg)
+			}
+		}
 		// the source is compared with its unchanged model by the battery that follows
 		// (reported as source-changed-by-clone-mutation)
 	case "Clone+toggleInSource":
